@@ -458,7 +458,13 @@ def run_impl(script, payload, timeout=1800, env_extra=None):
             env.update(env_extra)
         elif isinstance(payload, dict) and isinstance(payload.get("_env"), dict):
             env.update(payload["_env"])          # per-payload environment (e.g. another PYTHONHASHSEED)
-        p = subprocess.run([PY, path, outp], input=json.dumps(payload), env=env,
+        cmd = [PY, path, outp]
+        covdir = os.environ.get("VERIF_COVERAGE")
+        if covdir:
+            # opt-in audit (tools/coverage_audit.py): which lines / branches of the implementation do the checks reach at all
+            cmd = [PY, "-m", "coverage", "run", "--parallel-mode", "--branch", "--data-file=" + os.path.join(covdir, ".coverage"),
+                   "--source=" + os.path.join(REPO, "setigen"), path, outp]
+        p = subprocess.run(cmd, input=json.dumps(payload), env=env,
                            stdout=subprocess.PIPE, stderr=subprocess.PIPE, text=True,
                            timeout=timeout, cwd=tempfile.gettempdir())
         if p.returncode != 0:
